@@ -16,8 +16,9 @@ Oracle (model kept side by side, nothing of pkgcore's cache code is consulted):
     model from the tree state at the time of the regeneration it predicted.
   * regeneration (counted by wrapping package_factory._update_metadata) happens iff the predicate says stale;
   * the returned metadata equals what a cache-less repository regenerates from the same tree (differential; memoised per
-    content closure), and when the tree no longer can be sourced (a needed eclass is gone) the read fails as well instead of
-    serving the stale entry;
+    content closure), and when the tree no longer can be sourced (an inherited eclass exists in neither repository -- this
+    verdict is the model's, a cache-less run would only crash the daemon) the read fails as well instead of serving the
+    stale entry;
   * after a regeneration the on-disk entry (parsed by an independent 10-line reader) records the current ebuild
     checksum/mtime, exactly the current eclass closure with current checksums/locations and the fresh metadata, and an
     immediate second read through another fresh repo object is a pure cache hit with the same metadata.
@@ -25,7 +26,9 @@ Oracle (model kept side by side, nothing of pkgcore's cache code is consulted):
 Simplifications vs DESIGN.md: plain hypothesis op lists instead of a RuleBasedStateMachine; one writable cache per world
 (no read-only + writable pair); mtimes are harness-chosen integers 10 s apart, so same-second edits (inherent blind spot of
 mtime validation) are not generated; after a read that must fail the harness removes a possibly left-over entry itself
-(the statement says nothing about it).
+(the statement says nothing about it); a package that is uncached and unsourceable is read once per tree state, not after
+every op (each such read is a plain failing regeneration costing a daemon respawn). One regeneration costs about one CPU
+second on this host, so the quick tier is 128 histories (~1000 reads).
 """
 from __future__ import annotations
 
@@ -65,6 +68,7 @@ ASSUMPTIONS = [
     "file mtimes are integers chosen by the harness (flat_hash stores whole seconds)",
     "every read uses fresh repository / cache / eclass-cache objects (pkgcore caches directory listings and checksums per object)",
     "a stripped INHERIT line must force regeneration (observable: cached metadata would lack INHERIT, cache-less has it)",
+    "an ebuild (or eclass) inheriting an eclass that exists in neither repository cannot be sourced (model verdict)",
 ]
 BUDGET = {"quick": 60, "thorough": 900}
 
@@ -101,19 +105,19 @@ def _later(name):
     return NAMES[NAMES.index(name) + 1:]
 
 
-def _eclass_spec(name):
-    later = _later(name)
+def _eclass_spec(name, existing=NAMES):
+    """`existing`: names to prefer as inherit targets (initially present eclasses; ops use all names)"""
+    later = [n for n in _later(name) if n in existing]
     inh = st.lists(st.sampled_from(later), max_size=2, unique=True) if later else st.just([])
     return st.fixed_dictionaries({"v": st.integers(1, 3), "inh": inh})
 
 
-def _ebuild_spec():
+def _ebuild_spec(existing=NAMES):
     # mostly inherit something (otherwise there is nothing about eclasses to validate)
-    inh = st.one_of(st.lists(st.sampled_from(NAMES), min_size=1, max_size=2, unique=True),
-                    st.lists(st.sampled_from(NAMES), min_size=1, max_size=2, unique=True),
-                    st.lists(st.sampled_from(NAMES), min_size=1, max_size=2, unique=True),
-                    st.just([]))
-    return st.fixed_dictionaries({"v": st.integers(1, 3), "inh": inh})
+    if not existing:
+        return st.fixed_dictionaries({"v": st.integers(1, 3), "inh": st.just([])})
+    some = st.lists(st.sampled_from(sorted(existing)), min_size=1, max_size=2, unique=True)
+    return st.fixed_dictionaries({"v": st.integers(1, 3), "inh": st.one_of(some, some, some, some, st.just([]))})
 
 
 def _op():
@@ -141,19 +145,24 @@ def _op():
 @st.composite
 def worlds(draw, max_ops=9):
     kind = draw(st.sampled_from(["md5", "flat"]))
+    where = {n: draw(st.sampled_from(["m", "m", "m", "o", "o", "both", "both", "none"])) for n in NAMES}
+    # an ebuild whose eclass never existed cannot be sourced at all (every read fails, nothing is cached): initially
+    # ebuilds and eclasses inherit what exists (39 of 40 worlds); eclasses go missing through rm/mv ops instead
+    existing = [n for n in NAMES if where[n] != "none"]
+    if draw(st.integers(0, 39)) == 0:
+        existing = list(NAMES)
     eclasses = {}
     for n in NAMES:
-        where = draw(st.sampled_from(["m", "m", "m", "o", "o", "both", "both", "none"]))
         d = {}
-        if where in ("m", "both"):
-            d["m"] = draw(_eclass_spec(n))
-        if where in ("o", "both"):
+        if where[n] in ("m", "both"):
+            d["m"] = draw(_eclass_spec(n, existing))
+        if where[n] in ("o", "both"):
             # a shadowing copy is often textually identical to the master's (then md5 validation must not care)
-            d["o"] = dict(d["m"]) if ("m" in d and draw(st.booleans())) else draw(_eclass_spec(n))
+            d["o"] = dict(d["m"]) if ("m" in d and draw(st.booleans())) else draw(_eclass_spec(n, existing))
         eclasses[n] = d
-    pkgs = {"p1": draw(_ebuild_spec())}
+    pkgs = {"p1": draw(_ebuild_spec(existing))}
     if draw(st.booleans()):
-        pkgs["p2"] = draw(_ebuild_spec())
+        pkgs["p2"] = draw(_ebuild_spec(existing))
     ops = draw(st.lists(_op(), min_size=3, max_size=max_ops))
     return {"kind": kind, "eclasses": eclasses, "pkgs": pkgs, "ops": ops}
 
@@ -161,6 +170,7 @@ def worlds(draw, max_ops=9):
 # ---------------------------------------------------------------------------- regeneration counter
 
 _REGEN = {"n": 0, "installed": False}
+_MEMO = {}   # content signature -> public metadata of the cache-less reference regeneration
 
 
 def _install_counter():
@@ -193,6 +203,7 @@ class World:
         self.ebuilds = {}  # pkg -> {"v","inh","mtime"}
         self.entry = {}    # pkg -> None | {"chf":…, "ecl": {name: rec}, "has_inherit": bool}
         self.memo = {}
+        self.failed_reads = set()   # content signatures for which a read without entry already failed as expected
         for n in NAMES:
             for r, s in sorted(spec["eclasses"].get(n, {}).items()):
                 self._write_eclass(r, n, s)
@@ -374,13 +385,20 @@ class World:
                 return FAIL
 
     def expected(self, p):
-        """metadata a cache-less repository regenerates from the current tree (memoised by content closure)"""
+        """metadata a cache-less repository regenerates from the current tree (memoised by content closure, per
+        worker process: the texts contain no paths). A tree in which an inherited eclass does not exist anywhere is
+        unsourceable by construction (`inherit` of an unknown eclass dies); that verdict comes from the model -- the
+        cache-less run would only add a daemon crash + respawn."""
+        if self.closure(p)[1] is not None:
+            return FAIL
         sig = self.content_signature(p)
-        if sig not in self.memo:
+        if sig not in _MEMO:
             d = self._fetch(p, None)
-            self.memo[sig] = d if d == FAIL else public(d)
+            if d == FAIL:
+                raise core.HarnessError(f"reference (cache-less) regeneration failed for a sourceable tree: {sig}")
+            _MEMO[sig] = public(d)
             self.ctx.count("reference_regenerations")
-        return self.memo[sig]
+        return _MEMO[sig]
 
     def read(self, p):
         """-> (data or FAIL, number of regenerations it took)"""
@@ -447,7 +465,15 @@ def check_read(ctx, world, case, step, op, p, touched, old_closure):
         ctx.violation(bucket, case, f"step {step} ({core.jdump(op)}) pkg {p} [{world.kind}]: {msg}")
 
     exp = world.expected(p)
+    sig = world.content_signature(p)
+    if exp == FAIL and not had_entry and sig in world.failed_reads:
+        # nothing cached, tree still unsourceable and unchanged for this package: the read is the same plain failing
+        # regeneration as before (each one costs a daemon restart) -- not repeated
+        ctx.count("skipped_repeated_unsourceable_reads")
+        return True
     got, regens = world.read(p)
+    if exp == FAIL and not had_entry and got == FAIL:
+        world.failed_reads.add(sig)
 
     if regens and not reasons:
         bad(f"regenerated-valid-entry:{world.kind}:{opk}:{rel}", "entry is valid by the model but metadata was regenerated")
@@ -559,8 +585,8 @@ def guarded_history(ctx, spec):
 
 def plan(tier, seed):
     if tier == "quick":
-        return [{"task": "hyp", "examples": 14} for _ in range(16)]
-    return [{"task": "hyp", "examples": 220} for _ in range(16)]
+        return [{"task": "hyp", "examples": 8} for _ in range(16)]
+    return [{"task": "hyp", "examples": 90} for _ in range(16)]
 
 
 def run_task(ctx, task, **kw):
